@@ -81,6 +81,12 @@ def cov_of(dout):
 
 
 def run(chk):
+    _run_seq(chk)
+    if not chk.violations:
+        concurrent_part(chk)
+
+
+def _run_seq(chk):
     chk.assumptions = TRUSTED
     chk.cov["trusted_base"] = TRUSTED
     chk.cov["unproved_full_statements"] = UNPROVED
@@ -153,6 +159,9 @@ def run(chk):
 
 
 def replay(rp):
+    if rp.get("scenario") == "lfht_conc":
+        from props import c05
+        return c05.replay(rp)
     ok, log = build()
     if not ok:
         print(log)
@@ -166,3 +175,31 @@ def replay(rp):
         return 1 if (rc != 0 or drc != 0) else 0
     print(json.dumps(rp, indent=1))
     return 1
+
+
+RESIZE_CONFIGS = ("sweep/grow", "sweep/shrink", "sweep/populate", "sweep/remove", "auto/", "mix/", "init/")
+OWN_CONC = {"resident", "quarantine", "gp", "abort"}
+
+
+def concurrent_part(chk):
+    """'every node present before a resize is still found afterwards', with the resize running CONCURRENTLY with lookups and
+    updates: the schedules of the concurrent hash-table tie (props/c05.py; shared, cached batch) whose configuration resizes the
+    table, judged by the oracles that a resize can break (a resident node not found, a freed level / node touched, the
+    library's own assertions).  Divergences of that tie are reported by C05-C07, not here."""
+    try:
+        from props import c05
+    except ImportError:
+        return
+    b = c05.batch(chk.seed, chk.tier)
+    if "build_error" in b:
+        chk.notes.append("concurrent part: harness/scen/lfht_conc.c does not build: " + b["build_error"][-300:])
+        return
+    rs = [r for r in b["results"] if any(r.get("config", "").startswith(c) for c in RESIZE_CONFIGS)]
+    bad = [r for r in rs if r["verdict"] == "oracle" and any(k in OWN_CONC for k in r.get("kinds", []))]
+    chk.cov["concurrent_resize_runs"] = {"schedules": len(rs), "failing": len(bad), "shared_batch_key": b.get("key"),
+                                         "reused_cached_runs": bool(b.get("cached"))}
+    chk.cov["evaluations"] += len(rs)
+    if bad:
+        f = bad[0]
+        chk.fail("schedule", dict(c05._slim(f), scenario="lfht_conc", what="implementation oracle (resize concurrent with lookups / updates): " +
+                                  "; ".join(c05._own_first(f, OWN_CONC)), failing_runs=len(bad)))
